@@ -199,6 +199,19 @@ fn directed() -> Vec<(Cfg, Vec<Episode>)> {
     ]);
     e.keep = false;
     v.push((Cfg::default_cfg(), vec![e]));
+    // same root cause, server side orphaned: the client drops with unread
+    // data and its RST is lost
+    let e = Episode::plain(vec![
+        Step::Listen, Step::Accept, Step::Connect, d(), d(), d(), d(), Step::SWrite(8), d(), d(), Step::SDrop, d(), d(),
+        Step::CDrop, Step::Round(Drop, Deliver),
+    ]);
+    v.push((Cfg::default_cfg(), vec![e]));
+    // client orphaned, the server drops with unread data and its RST is lost
+    let e = Episode::plain(vec![
+        Step::Listen, Step::Accept, Step::Connect, d(), d(), d(), d(), Step::CWrite(8), d(), d(), Step::CDrop, d(), d(),
+        Step::SDrop, Step::Round(Deliver, Drop),
+    ]);
+    v.push((Cfg::default_cfg(), vec![e]));
     // nothing listens
     let e = Episode::plain(vec![Step::Connect, d(), d(), d()]);
     v.push((Cfg::default_cfg(), vec![e]));
@@ -263,8 +276,8 @@ fn minimise(sc: &Scenario, seed: u64, class: &str) -> Scenario {
     // Normalising loop: the same root cause should end in the same script
     // whatever random script found it, so besides deleting steps (ddmin) the
     // script is rewritten towards a normal form: episodes merged, faults
-    // removed or weakened, cancel / shutdown replaced by a plain drop, the
-    // listener bound first.
+    // removed or weakened, cancel / shutdown replaced by a plain drop,
+    // actions moved as early as possible.
     for _pass in 0..4 {
         let before = cur.clone();
         // merge neighbouring episodes
@@ -342,17 +355,40 @@ fn minimise(sc: &Scenario, seed: u64, class: &str) -> Scenario {
                     Step::SWrite(n) if n != 8 => {
                         let _ = set(&mut cur, vec![Step::SWrite(8)]);
                     }
-                    Step::Listen if j > 0 => {
-                        // bind the listener first
-                        let _ = try_apply(&mut cur, &|s| {
-                            let l = s.episodes[i].steps.remove(j);
-                            s.episodes[i].steps.insert(0, l);
-                        });
-                    }
                     _ => {}
                 }
                 j += 1;
             }
+        }
+        // actions as early as possible: bubble every non-round step to the
+        // left while the complaint stays (normal form for step order)
+        for i in 0..cur.episodes.len() {
+            let mut j = 1;
+            while j < cur.episodes[i].steps.len() {
+                let mut k = j;
+                while k > 0
+                    && !matches!(cur.episodes[i].steps[k], Step::Round(..))
+                    && cur.episodes[i].steps[k - 1] != cur.episodes[i].steps[k]
+                    && try_apply(&mut cur, &|s| s.episodes[i].steps.swap(k - 1, k))
+                {
+                    k -= 1;
+                }
+                j += 1;
+            }
+        }
+        // the steps before the first round do not touch the wire: fixed
+        // order listen, accept, connect, rest
+        for i in 0..cur.episodes.len() {
+            try_apply(&mut cur, &|s| {
+                let steps = &mut s.episodes[i].steps;
+                let n = steps.iter().position(|x| matches!(x, Step::Round(..))).unwrap_or(steps.len());
+                steps[..n].sort_by_key(|x| match x {
+                    Step::Listen => 0,
+                    Step::Accept => 1,
+                    Step::Connect => 2,
+                    _ => 3,
+                });
+            });
         }
         if cur == before {
             break;
@@ -435,7 +471,12 @@ pub fn run(ctx: &Ctx) -> ! {
             } else {
                 let sc = Scenario::from_json(&w);
                 let o = run_scenario(&sc, seed);
-                to_out(&sc, seed, o, "replay", false)
+                if std::env::var("VERIF_TRACE").is_ok() {
+                    for t in &o.trace {
+                        eprintln!("{t}");
+                    }
+                }
+                to_out(&sc, seed, o, "replay", std::env::var("VERIF_REPLAY_MINIMISE").is_ok())
             }
         });
         vcore::finish(ctx, rep, fin);
